@@ -47,6 +47,7 @@ func c20W() []interface{} {
 		primitive.DateTime(0), primitive.DateTime(math.MinInt64), primitive.Timestamp{T: 1, I: 1}, oid, primitive.Regex{Pattern: "(", Options: "q"}, primitive.Regex{Pattern: "a", Options: "i"},
 		primitive.Binary{Subtype: 0, Data: []byte{1, 2}}, primitive.Binary{Subtype: 0, Data: nil},
 		bson.D{}, bson.A{}, bD("a", int32(1)), bD("$gt", int32(1)), bD("$bogus", int32(1)), bD("", int32(1)), bD("$each", int32(1)), bD("$each", bson.A{int32(1)}, "$slice", "x"),
+		bD("$gte", int32(0), "", int32(2)), bD("$in", bson.A{int32(1)}, "x", int32(1)), bD("$exists", true, "$bogus", int32(1)), bD("x", int32(1), "$gt", int32(0)),
 		bson.A{int32(1), "a", nil}, bson.A{bson.A{}, bson.D{}}, bson.A{bD("x", int32(1)), bD("x", bson.A{})}, bson.A{int32(-1), int64(70), 1.5}, deep,
 	}
 }
